@@ -202,7 +202,10 @@ def check_invocations(obs, ro, ref, prog, lazy_guard=None):
                              decl=sorted(decl)))
             continue
         if c > e.n:
-            out.append(F(['C04'], 'over_execution', node=node, got=c, exp=e.n,
+            props = ['C04']
+            if any(v > 0 for v in ref.rec_iters.values()) and not _in_any_sub(ref, node):
+                props.append('C11')     # a node outside every recurrent subgraph was re-executed
+            out.append(F(props, 'over_execution', node=node, got=c, exp=e.n,
                          kwargs=_short(rec['kwargs'], 200)))
     if success:
         for key, e in ref.inv.items():
@@ -429,6 +432,28 @@ def check_events(obs, ro, ref, prog, cancelled=False):
             if state.get(n) not in ('started', 'retrying'):
                 out.append(F(['C14'], 'body_without_node_start', node=n, state=state.get(n)))
             seq.setdefault(n, []).append('b')
+    # an async / inline body runs inside the engine task: its outcome is followed by on_node_complete in
+    # the very same task step, so the next event of that node must be the completion callback
+    last = {}
+    for r in evs:
+        n = r['node']
+        if n is None:
+            continue
+        k = r['k']
+        prev = last.get(n)
+        if prev is not None and k not in ('cb_node_complete', 'cb_resume', 'cb_fault'):
+            if not (prev['k'] == 'body_raise' and k == 'default_call'):
+                out.append(F(['C14'], 'missing_node_complete', node=n, after=prev['k'], then=k))
+            last.pop(n, None)
+        if k in ('body_ret', 'body_next', 'default_call') or (k == 'body_raise' and r.get('exc') != 'Fatal'):
+            if prog['nodes'].get(n, {}).get('mode') in ('async', 'inline'):
+                last[n] = r
+            continue
+        if k == 'cb_node_complete':
+            last.pop(n, None)
+    if finished:
+        for n, prev in last.items():
+            out.append(F(['C14'], 'missing_node_complete', node=n, after=prev['k'], then='run end'))
     # attempts: number of node_complete per execution == number of body invocations (or 1 for default)
     body_n = {}
     comp_n = {}
